@@ -11,6 +11,7 @@ instead of OS entropy.
 from __future__ import annotations
 
 import json
+import types
 from collections import deque
 from concurrent.futures import ThreadPoolExecutor
 from typing import Any
@@ -41,6 +42,7 @@ SID_DSC, SID_ER, SID_RDBI, SID_SA, SID_RC, SID_TP = 0x10, 0x11, 0x22, 0x27, 0x31
 
 _ORIG_RNG = srv.RNG
 _ORIG_TIME = srv.time
+_ORIG_TRACEBACK = srv.traceback
 
 
 class _DetRNG(_ORIG_RNG):  # type: ignore[misc,valid-type]
@@ -64,11 +66,14 @@ def patch_env(seed: int) -> None:
     _DetRNG.counter = 0
     srv.RNG = _DetRNG  # type: ignore[misc]
     srv.time = lambda: 1000.0  # type: ignore[assignment]
+    # handle_client prints the traceback of whatever ended a connection; keep stderr for verdicts
+    srv.traceback = types.SimpleNamespace(print_exc=lambda *a, **k: None)  # type: ignore[assignment]
 
 
 def unpatch_env() -> None:
     srv.RNG = _ORIG_RNG  # type: ignore[misc]
     srv.time = _ORIG_TIME  # type: ignore[assignment]
+    srv.traceback = _ORIG_TRACEBACK  # type: ignore[assignment]
 
 
 # ----------------------------------------------------------------------------
@@ -257,15 +262,17 @@ class Corpus:
         return self._mkey[k]
 
     def add(self, *, m: int, B: frozenset[str] | set[str], mode: str, steps: list[dict[str, Any]],
-            meta: dict[str, Any], init: tuple[int, int] = (1, -1), chunk: int = 400) -> None:
-        """Long histories are cut into chunks; each chunk starts in the recorded state."""
+            meta: dict[str, Any], init: tuple[int, int] = (1, -1), chunk: int = 400, indep: bool = False) -> None:
+        """Long histories are cut into chunks; each chunk starts in the recorded state.
+        indep: the steps are alternatives tried in the same state `init`, not a history."""
         cur = init
         for off in range(0, len(steps), chunk):
             part = steps[off:off + chunk]
-            self.traces.append({"id": len(self.traces), "m": m, "B": sorted(B), "mode": mode,
+            self.traces.append({"id": len(self.traces), "m": m, "B": sorted(B), "mode": mode, "indep": indep,
                                 "init": {"s": cur[0], "l": cur[1]}, "steps": part,
                                 "meta": dict(meta, offset=off)})
-            cur = (part[-1]["s"], part[-1]["l"])
+            if not indep:
+                cur = (part[-1]["s"], part[-1]["l"])
 
     @property
     def n_steps(self) -> int:
@@ -273,7 +280,8 @@ class Corpus:
 
     def _batch(self, traces: list[dict[str, Any]]) -> dict[str, Any]:
         return {"models": self.models,
-                "traces": [{"id": t["id"], "m": t["m"], "B": t["B"], "mode": t["mode"], "init": t["init"],
+                "traces": [{"id": t["id"], "m": t["m"], "B": t["B"], "mode": t["mode"], "indep": t["indep"],
+                            "init": t["init"],
                             "steps": [{k: s[k] for k in _STEP_KEYS} for s in t["steps"]]} for t in traces]}
 
     def validate(self, traces: list[dict[str, Any]] | None = None, *, steps_per_batch: int = 60000,
@@ -294,7 +302,7 @@ class Corpus:
 
         def one(g: list[dict[str, Any]]) -> Any:
             return tlc.validate_batch("Trace_VEcu", "Trace_VEcu.cfg", self._batch(g), timeout=1800,
-                                      env={"JAVA_TOOL_OPTIONS": "-Xss256m"}, heap="3g")
+                                      env={"JAVA_TOOL_OPTIONS": "-Xss256m -XX:ParallelGCThreads=2"}, heap="3g")
 
         with ThreadPoolExecutor(max_workers=max(1, min(parallel, len(groups)))) as ex:
             results = list(ex.map(one, groups))
@@ -347,7 +355,10 @@ def sig_of(m: dict[int, dict[int, list[int] | None]], trace: dict[str, Any], idx
     """Small, stable signature of a failing step (idx 1-based)."""
     steps = trace["steps"]
     st = steps[idx - 1]
-    before = steps[idx - 2]["s"] if idx >= 2 else trace["init"]["s"]
+    before = steps[idx - 2]["s"] if idx >= 2 and not trace["indep"] else trace["init"]["s"]
     B = set(trace["B"])
-    return {"exc": st["x"], "req_class": req_class(m, before, st), "session_offered": before in m,
-            "all_on": B == set(RULES), "msf_off": "msf" not in B, "sfns_off": "sfns" not in B}
+    sig: dict[str, Any] = {"exc": st["x"], "one_byte": st["n"] == 1, "session_offered": before in m,
+                           "all_on": B == set(RULES), "msf_off": "msf" not in B, "sfns_off": "sfns" not in B}
+    if not st["x"]:
+        sig["req_class"] = req_class(m, before, st)
+    return sig
